@@ -7,6 +7,8 @@ package prodwt
 // compiled here and in C20's probe. What is judged (problem classes carry the
 // property id as prefix):
 //
+//	C07  of several concurrent validly signed registrations exactly one is
+//	     acknowledged; memory, key file and the restarted server hold its key
 //	C01  datagrams that must be refused leave snapshot, recent-reports list and
 //	     report log as they were; acceptable ones are recorded (margins of 12
 //	     slots around the ±432 rule: the real clock may tick during the episode)
@@ -39,6 +41,7 @@ import (
 	"net"
 	"os"
 	"path/filepath"
+	"sync"
 	"syscall"
 	"time"
 
@@ -189,11 +192,66 @@ func lifeEpisode(work string, seed int64, f *fake) event {
 		fatal("first start failed: %v", err)
 	}
 	l.s = s
-	reg := refenc.Registration{GCAKey: f.gca.Pub}
-	reg.Sig = refenc.Sign(temp.Priv, reg.SigningBytes())
-	if code, body, err := post("/api/v1/register-gca", reg.JSON()); err != nil || code != 200 {
-		fatal("registration failed: %d %v %s", code, err, body)
+	// NewGCAServer reported success: the server serves (whatever WattTime does)
+	serving := false
+	for i := 0; i < 30 && !serving; i++ {
+		if code, _, err := get("/api/v1/equipment"); err == nil && code == 200 {
+			serving = true
+		} else {
+			time.Sleep(100 * time.Millisecond)
+		}
 	}
+	if !serving {
+		for _, p := range []string{"C12", "C13"} {
+			l.bad("%s:start-reported-success-but-server-not-serving: NewGCAServer returned a server and no error, yet GET /api/v1/equipment is not answered within 3 s (WattTime down=%v)", p, f.down.Load())
+		}
+		s.Close()
+		return l.result()
+	}
+	if f.down.Load() {
+		l.counts["wattime_down_episodes"] = 1
+	}
+	// ---- C07: several validly signed registrations with different keys at the same time: exactly one
+	// is acknowledged, and that one is the key in memory, in the key file and after the restart
+	cands := make([]refenc.Key, 6+rng.Intn(6))
+	regCodes := make([]int, len(cands))
+	var rwg sync.WaitGroup
+	for i := range cands {
+		cands[i] = refenc.GenKey(rng)
+	}
+	for i := range cands {
+		rwg.Add(1)
+		go func(i int) {
+			defer rwg.Done()
+			reg := refenc.Registration{GCAKey: cands[i].Pub}
+			reg.Sig = refenc.Sign(temp.Priv, reg.SigningBytes())
+			time.Sleep(time.Duration(i*60) * time.Microsecond)
+			regCodes[i], _, _ = post("/api/v1/register-gca", reg.JSON())
+		}(i)
+	}
+	rwg.Wait()
+	winner := -1
+	n200 := 0
+	for i, c := range regCodes {
+		if c == 200 {
+			n200++
+			winner = i
+		}
+	}
+	if n200 != 1 {
+		if n200 == 0 {
+			fatal("no registration was accepted: %v", regCodes)
+		}
+		l.bad("C07:more-than-one-registration-accepted: %d of %d concurrent registrations with different keys were answered 200: %v", n200, len(cands), regCodes)
+	}
+	f.gca = cands[winner]
+	if sn := s.VerifSnapshot(false); !sn.GCAAvailable || sn.GCAKey != glow.PublicKey(f.gca.Pub) {
+		l.bad("C07:server-key-differs-from-winner: the registration answered 200 carried key %x, the server holds %x (available=%v)", f.gca.Pub[:6], sn.GCAKey[:6], sn.GCAAvailable)
+	}
+	if b, err := os.ReadFile(filepath.Join(dir, "gcaPubKey.dat")); err != nil || !bytes.Equal(b, f.gca.Pub[:]) {
+		l.bad("C07:key-file-differs-from-winner: gcaPubKey.dat holds %x (err %v), the acknowledged registration carried %x", b, err, f.gca.Pub[:])
+	}
+	l.counts["c07_concurrent_registrations"] = len(cands)
 	type devT struct {
 		id   uint32
 		key  refenc.Key
@@ -654,6 +712,9 @@ func lifeEpisode(work string, seed int64, f *fake) event {
 	after := s.VerifSnapshot(true)
 	if after.Offset != before.Offset {
 		l.bad("C04:restart-changed-state:offset: %d -> %d", before.Offset, after.Offset)
+	}
+	if !after.GCAAvailable || after.GCAKey != glow.PublicKey(f.gca.Pub) {
+		l.bad("C07:server-key-differs-from-winner: after the restart the server holds GCA key %x (available=%v), the acknowledged registration carried %x", after.GCAKey[:6], after.GCAAvailable, f.gca.Pub[:6])
 	}
 	if len(after.Equipment) != len(before.Equipment) || len(after.Bans) != len(before.Bans) || !after.Bans[X.id] {
 		l.bad("C04:restart-changed-state:equipment: %d/%d devices, %d/%d bans", len(before.Equipment), len(after.Equipment), len(before.Bans), len(after.Bans))
